@@ -203,7 +203,8 @@ def parse_output(exes, base, stdout):
                 elif kind == "rel":
                     cur.events.append({"e": "Rel", "r": r})
                 elif kind == "set":
-                    cur.events.append({"e": "Set", "r": r, "mtu": int(seg.split(",")[0]), "align": int(seg.split(",")[1])})
+                    # (the event is completed when the answer of the setter is known: Set or SetRefused)
+                    cur.events.append({"e": "Set?", "r": r, "mtu": int(seg.split(",")[0]), "align": int(seg.split(",")[1])})
             continue
         if cur is None or ci < 0:
             continue
@@ -246,8 +247,10 @@ def parse_output(exes, base, stdout):
                         raise vlib.ToolError("pipe_driver: xrel failed: " + line)
                     cur.events.append({"e": "Released", "r": r})
                 elif kind == "set":
-                    if toks[1] != "0":
-                        raise vlib.ToolError("pipe_driver: option refused: %s (%s)" % (line, cur.cmds[ci][0][:60]))
+                    for ev in reversed(cur.events):
+                        if ev["e"] == "Set?":
+                            ev["e"] = "Set" if toks[1] == "0" else "SetRefused"
+                            break
                 elif toks[1] != "0":
                     raise vlib.ToolError("pipe_driver: xin failed: %s (%s)" % (line, cur.cmds[ci][0][:60]))
             elif toks[1] != "0":
@@ -539,6 +542,8 @@ def enumerated(quick):
                 break
     # the option changes while octets are held, then the pipe is released / fed again
     for (m1, a1), held, (m2, a2), more in [((100, 1), 57, (10, 4), None), ((100, 1), 57, (10, 4), 1), ((7, 3), 5, (3, 1), None),
+                                           ((1342, 3), 1000, (100, 100), 2000), ((1342, 3), 1000, (4, 8), None),
+                                           ((1342, 3), 1000, (4, 8), 2000), ((7, 3), 5, (0, 1), 9),
                                            ((9, 8), 7, (2, 1), None), ((5, 2), 1, (100, 1), 3), ((188, 47), 100, (7, 3), 0)]:
         ops = [[1, "in", bytes(filler(i) for i in range(held)), None, False], [1, "set", b"", "%d,%d" % (m2, a2), False]]
         if more is not None:
@@ -646,7 +651,9 @@ def random_exe(rng, quick):
             ops.append([1, "in", data, rand_seg(rng, ln) if rng.chance(1, 3) else None, False])
             if rng.chance(1, 5):
                 # the option changes in the middle of the stream, possibly while octets are held
-                m2, a2 = rng.choice([(5, 2), (7, 3), (3, 1), (4, 3), (10, 4), (9, 8), (2, 1), (100, 1), (188, 47)])
+                # (a third of them are settings the pipe refuses: alignment >= MTU, or a zero - nothing may change)
+                m2, a2 = rng.choice([(5, 2), (7, 3), (3, 1), (4, 3), (10, 4), (9, 8), (2, 1), (100, 1), (188, 47),
+                                     (100, 100), (4, 8), (0, 1), (8, 0), (1, 1)])
                 ops.append([1, "set", b"", "%d,%d" % (m2, a2), False])
             if len(ops) > 200:
                 break
